@@ -143,11 +143,21 @@ def run(rep, facts, tier):
             short.append((s_, t_, a))
     # the expectation covers the last fragment too: it mentions what remains of the sample (the buffer length)
     whole = [x for x in short if has_field(x[2], 'buffer_bytes')]
+    # ... and it is their minimum, not more: a test that asks for more than the fragments stand for turns every fragment away (mutation round 4: min -> max survived)
+    from rdv.poly import minset as _minset
+    exact = []
+    for x in whole:
+        ms = _minset(x[2])
+        has_nfs = any(any('fragments_in_submessage' in str(a) for m in dict(p_).keys() for a in m) and not any('buffer_bytes' in str(a) for m in dict(p_).keys() for a in m) for p_ in ms)
+        has_rem = any(any('buffer_bytes' in str(a) for m in dict(p_).keys() for a in m) for p_ in ms)
+        if len(ms) == 2 and has_nfs and has_rem:
+            exact.append(x)
+    whole = exact if whole else whole
     ok16 = bool(sets) and bool(whole) and not any(Pi.can_reach((t_, 0), st_) for s_, t_, _e in whole for st_ in sets)
     rep.check(ok16, 'R05.16', 'insert_frags/short-fragment-not-counted', 'payload.len() < min(n*fs, remaining) => no bit set',
               'insert_frags marks the fragments of a DATAFRAG as received although its payload is shorter than the bytes they stand for (%s): with the other fragments in place the '
               'sample is delivered with the missing bytes left zero' % ('the size test does not lead away from the bitmap' if whole else
-                                                                          ('the size test leaves out the last fragment' if short else 'there is no such size test')), inf.where())
+                                                                          ('the size expected is not min(n*fs, what remains of the sample)' if short else 'there is no such size test')), inf.where())
     nb = fx.find(FA + 'AssemblyBuffer::new')
     rep.analysed(nb)
     ogn = Origins(nb, summaries=False)
